@@ -287,6 +287,10 @@ static bool runIter(uint64_t seed, uint64_t idx, int onlyTd, int onlyProto)
   int nEdgeRecv = rng.chance(0.4) ? int(rng.range(1, 2)) : 0;
   int nStorm = selfDestruct ? 0 : int(rng.range(1, 4));
   uint32_t slowClose = rng.chance(0.6) ? uint32_t(rng.range(50, 1500)) : 0;
+  // a non-instant user onClose (1-20 ms per open session) keeps the shutdown drain busy after its last
+  // pass over the command queue; connectSync callers keep ENTERING until stop() has returned
+  if (!destroying && rng.chance(0.25)) slowClose = uint32_t(rng.range(1000, 20000));
+  int nBurst = (!destroying && !udp && rng.chance(0.6)) ? int(rng.range(1, 3)) : 0;
   uint32_t cvDelay = rng.chance(0.6) ? uint32_t(rng.range(100, 3000)) : 0;
   // callbacks fired while teardown is under way call public operations themselves (not in the
   // self-destruct kinds: there the Transport object is gone once the callback has dropped it)
@@ -587,6 +591,40 @@ static bool runIter(uint64_t seed, uint64_t idx, int onlyTd, int onlyProto)
         w->done = true;
       });
     }
+    // connectSync burst (co-owning): released when teardown has begun, each thread keeps entering
+    // connectSync (accepting target, short timeout) until stop() has returned, then twice more
+    std::atomic<uint64_t> burstCalls{0}, burstOk{0}, burstShut{0}, burstOther{0};
+    for (int i = 0; i < nBurst && echo; i++)
+    {
+      W.emplace_back(new Worker()); Worker *w = W.back().get();
+      std::shared_ptr<Transport> own = t;
+      uint64_t s0 = rng.next();
+      uint16_t bport = echo->port();
+      w->th = std::thread([&, w, own, s0, bport]() mutable {
+        vf::Rng r(s0);
+        while (!tdBegun.load()) vf::sleepMs(0.05);
+        int after = 2;
+        for (;;)
+        {
+          if (stopsReturned.load() > 0 && after-- <= 0) break;
+          w->op = OpConnectSync; w->t0 = vf::nowNs(); w->inCall = true;
+          try
+          {
+            auto cr = own->connectSync("127.0.0.1", bport, TlsMode::None, std::chrono::milliseconds(int(r.range(5, 60))));
+            w->inCall = false;
+            burstCalls++;
+            if (cr.isOk()) { burstOk++; own->close(cr.value()); }
+            else if (cr.error().code == TransportError::ShuttingDown || (cr.error().code == TransportError::Unknown && cr.error().message == "shutdown")) burstShut++;
+            else burstOther++;
+          }
+          catch (const std::exception &ex) { w->inCall = false; w->threw = true; w->what = ex.what(); }
+          if (r.chance(0.5)) vf::sleepMs(0.02 * double(r.below(10)));
+        }
+        w->op = OpMisc;
+        own.reset();
+        w->done = true;
+      });
+    }
     vf::sleepMs(0.2 * double(rng.below(15)));
 
     // ---- edge callers: short timeouts (black-holed connectSync / silent receiveSync) whose expiry is
@@ -823,6 +861,7 @@ static bool runIter(uint64_t seed, uint64_t idx, int onlyTd, int onlyProto)
       }
       else if (op == OpFlush) { O.obs(std::string("flush_returned_") + (w->flushRet ? "true" : "false") + (w->parkedBefore.load() ? "_parked" : "_racer")); sigBits |= w->flushRet ? 256 : 512; }
     }
+    if (nBurst) { O.obs("burst_connectSync_calls_entered_between_teardown_begin_and_stop_return", burstCalls.load()); O.obs("burst_connectSync_ok", burstOk.load()); O.obs("burst_connectSync_shutting_down", burstShut.load()); O.obs("burst_connectSync_other_error", burstOther.load()); }
     O.obs("storm_ops", stormOps.load());
     O.obs("storm_ops_issued_after_teardown_began", opsAfterTd.load());
     O.obs("send_true", sendTrue.load()); O.obs("send_false", sendFalse.load());
